@@ -320,6 +320,19 @@ def _adopted(M, w, right, **kw):
         return right
 
 
+def deferred(make, right):
+    """the deferred-initialisation workflow of nn.Module: the same constructor call under torch.device('meta'), then
+    .to_empty(device='cpu'), then load_state_dict of a normally built instance - the state dict carries the filters"""
+    try:
+        with torch.device('meta'):
+            other = make()
+        other = other.to_empty(device='cpu')
+        other.load_state_dict({k: v.clone() for k, v in right.state_dict().items()})
+        return other
+    except Exception:
+        return right
+
+
 def _build(M, w, **kw):
     order = 0
     if not isinstance(w, str) and os.environ.get('VERIF_NO_TWINS') != '1':
@@ -333,7 +346,9 @@ def _build(M, w, **kw):
     if order == 2:
         _twin(M, w, **kw)
     if order == 3:
-        mod = _adopted(M, w, mod, **kw)
+        import copy as _copy
+        wc = _copy.deepcopy(w)
+        mod = _adopted(M, w, mod, **kw) if _hashlib.sha1(repr([np.asarray(f).tolist() for f in w]).encode()).digest()[3] % 2 == 0 else deferred(lambda: M(wave=wc, **kw), mod)
     if os.environ.get('VERIF_NO_TWINS') != '1':
         _decoy(M, w, **kw)
     _scribble(w)
